@@ -6,11 +6,17 @@ P="$1"; shift
 case "$P" in revert:*) ;; /*) ;; *) P="$PWD/$P" ;; esac
 cd /repo || exit 3
 if [ -n "$(git status --porcelain)" ]; then echo "/repo not clean" >&2; exit 3; fi
-restore() { git -C /repo checkout -q -- . ; git -C /repo clean -fdq; }
+restore() { git -C /repo reset -q --hard HEAD; git -C /repo clean -fdq; }
 trap restore EXIT
 case "$P" in
   revert:*) git revert --no-commit "${P#revert:}" >/dev/null 2>&1 || { echo "revert failed" >&2; git revert --abort 2>/dev/null; exit 3; }; git reset -q ;; 
-  *) git apply "$P" 2>/dev/null || git apply --3way "$P" >/dev/null 2>&1 && git reset -q || { echo "patch does not apply" >&2; exit 3; } ;;
+  *) if ! git apply "$P" 2>/dev/null; then
+       git apply --3way "$P" >/dev/null 2>&1
+       if [ -n "$(git diff --name-only --diff-filter=U)" ] || [ -z "$(git status --porcelain)" ]; then
+         git reset -q --hard HEAD; echo "patch does not apply" >&2; exit 3
+       fi
+       git reset -q
+     fi ;;
 esac
 cd /verif
 "$@"
